@@ -70,6 +70,18 @@ theorem join_eq_fold (dec : EscDec) (p : List Part) (t : Str) (more : List Str) 
     join dec p (t :: more) = (truediv dec p t).bind (fun q => join dec q more) := by
   exact Lemmas.join_eq_fold dec p t more
 
+/-- `is_relative_to` is exactly "a proper extension, token for token": `self` is relative to `other` iff the tokens of
+    `self` are the tokens of `other` followed by at least one more token (whatever mix of `int` / `str` parts either holds). -/
+theorem relative_iff_proper_extension (self other : List Part) :
+    isRelativeTo self other = true ↔ ∃ rest, rest ≠ [] ∧ tokens self = tokens other ++ rest := by
+  exact Lemmas.relative_iff_proper_extension self other
+
+/-- Hence it is a strict order: no pointer is relative to itself or to one of its own extensions, and it is transitive. -/
+theorem relative_strict_order (a b c : List Part) :
+    isRelativeTo a a = false ∧ (isRelativeTo a b = true → isRelativeTo b a = false) ∧
+    (isRelativeTo a b = true → isRelativeTo b c = true → isRelativeTo a c = true) := by
+  exact ⟨Lemmas.relative_irrefl a, Lemmas.relative_asymm a b, Lemmas.relative_trans a b c⟩
+
 /-- The parent of the root pointer is the root pointer; `parent` drops exactly the last token. -/
 theorem parent_spec (p : List Part) : parent [] = [] ∧ tokens (parent p) = (tokens p).dropLast := by
   exact Lemmas.parent_spec p
@@ -95,5 +107,6 @@ example : TokInRange "12".toList ∧ TokInRange "+1".toList ∧ TokInRange "".to
   refine ⟨?_, ?_, ?_⟩ <;> intro i h <;> simp [parseIndexToken, isCanonNat, isAsciiDigit] at h <;>
     (subst h; decide)
 example : lstrip (escapeTok "a/b".toList) = escapeTok "a/b".toList := by decide
+example : isRelativeTo [.key "a".toList, .idx 1] [.key "a".toList] = true ∧ isRelativeTo [.idx 1] [.key "1".toList] = false := by decide
 
 end JP.Props.C14
